@@ -27,6 +27,9 @@ VERIF_MSG = (
     "loop invariant not satisfied", "possible bit shift underflow/overflow", "recommendation not met",
     "unreachable", "could not prove termination", "index out of bounds", "cannot show", "might not be allowed",
     "possible truncation", "failed precondition", "not satisfied",
+    "precondition not met",                           # vstd's own preconditions (e.g. "index in bounds for this access")
+    "unable to prove",                                # e.g. "... post-condition of closure": a closure header from the side-car no longer holds for the closure's body
+    "cannot prove", "could not prove", "may fail to meet",
 )
 
 
@@ -51,7 +54,7 @@ def kind_of(msg):
     m = msg.lower()
     if m.strip() == "requires not satisfied":
         return "assert"      # `assert(..) by(bit_vector) requires ..`: the hint's own premise
-    if "postcondition" in m:
+    if "postcondition" in m or "post-condition" in m:
         return "ensures"
     if "precondition" in m:
         return "requires-at-call"
